@@ -97,7 +97,7 @@ def run_via_main(batch):
     try:
         os.mkdir(os.path.join(tmp, "inputs"))
         os.mkdir(os.path.join(tmp, "outputs"))
-        with open(os.path.join(tmp, "inputs", "batch_1.py"), "w") as f:
+        with open(os.path.join(tmp, "inputs", "batch_1.py"), "w", encoding="utf-8") as f:
             f.write(repr(batch))
         os.chdir(tmp)
         sys.argv = ["conditionalrewards.py", "-f", "inputs/batch_1.py", "-s"]
@@ -108,7 +108,7 @@ def run_via_main(batch):
         if files != ["batch_1.txt"]:
             return None, "outputs/ contains %r" % files
         try:
-            return B.parse_report(open(os.path.join("outputs", "batch_1.txt")).read()), None
+            return B.parse_report(open(os.path.join("outputs", "batch_1.txt"), encoding="utf-8").read()), None
         except ValueError as e:
             return None, "report does not parse: %s" % e
     finally:
